@@ -1,6 +1,8 @@
 pub mod ak;
 pub mod c01;
 pub mod c02;
+pub mod c07;
+pub mod c13;
 pub mod c14;
 pub mod c16;
 pub mod c16b;
@@ -16,6 +18,8 @@ pub fn dispatch(prop: &str, tier: Tier, replay: Option<String>) -> i32 {
         "C01" => c01::run(tier, replay),
         "C02" => c02::run(tier, replay),
         "C06" => c01::run_c06(tier, replay),
+        "C07" => c07::run(tier, replay),
+        "C13" => c13::run(tier, replay),
         "C14" => c14::run(tier, replay),
         "C16" => c16::run(tier, replay),
         "count" => {
